@@ -1007,6 +1007,8 @@ func (ex *Exec) skolemWithHyps(fr *Frame, st *State, part invConjE) (string, boo
 }
 
 func (ex *Exec) instantiateHyps(fr *Frame, st *State, sks []TVal) {
+	ex.instSeq++
+	ex.pendingInst = ex.instSeq
 	// hint terms of the verified function, evaluated now
 	var hints []TVal
 	if top := ex.topFrame; top != nil && top.ct != nil {
@@ -1071,7 +1073,13 @@ func (ex *Exec) instantiateHyps(fr *Frame, st *State, sks []TVal) {
 						}
 						return b
 					}()
-					ex.assume(st, t)
+					// the recorded fact holds on the paths through its program point
+					if g := rec.state.guard; g != "" && g != "true" && g != st.guard {
+						t = implies(g, t)
+					}
+					if t != "true" {
+						ex.vc.cmds = append(ex.vc.cmds, fmt.Sprintf("(assert %s) ;INST %d", implies(st.guard, t), ex.pendingInst))
+					}
 					return
 				}
 				vt := hc.resolveType(hq.Vars[k].Type)
